@@ -207,6 +207,8 @@ class Sidecar:
                     R.opaques[key] = d
                 elif fn == 'inline':
                     R.inlines.add((self._const(call.args[0]), self._const(call.args[1])))
+                elif fn == 'event_sort':
+                    R.event_sorts[self._const(call.args[0])] = self._const(call.args[1])
                 elif fn == 'extern':
                     # extern("dotted.name", event=..., raises=..., returns=Ty)
                     d = {}
@@ -231,6 +233,7 @@ class Registry:
         self.fields = {}
         self.opaques = {}
         self.externs = {}
+        self.event_sorts = {}
         self.inlines = set()
         self.helpers = {}
         self.sidecars = {}
